@@ -51,3 +51,33 @@ Example accepted :
        Node "M" [] [Node ".static" [] [Node "valjean.css" [] []]];
        Node "M" [] [Node "figures" [] [Node "plot_p0.png" [] [Node "x" [] []]]]] = true.
 Proof. vm_compute. reflexivity. Qed.
+
+(* ---- the transcription of the code's algorithm on the same data ---- *)
+Example rep_by_the_dictionaries : dwrite_report rep = write rep /\ snd (dwrite_report rep) = None.
+Proof. vm_compute. split; reflexivity. Qed.
+
+Example refused_by_the_dictionaries :
+  map dwrite_report
+      [Node "M" [] [Node "index" [] []];
+       Node "M" [] [Node "A" [res 1 []] []; Node "A" [res 2 []] []];
+       Node "M" [] [Node "A" [] []; Node "B" [] [Node "a/b" [] []]];
+       Node "M" [] [Node ".static" [] [Node "valjean.css" [] [Node "x" [] []]]]]
+  = repeat ([], Some 1) 4.
+Proof. vm_compute. reflexivity. Qed.
+
+(* the unchanged tree had no check_tree: _write_rec on the dictionaries of these
+   reports wrote index.rst twice (the section "index" over the root page), and
+   merged two sections "A" into one page that is written and listed twice *)
+Definition old_pages (r : report) : list page :=
+  match fmt r [] (mk_fstate [] [] []) with Some st => dpages FUEL st [] | None => [] end.
+
+Example index_title_refuted :
+  map (fun p => (add_rst (p_doc p), p_anchors p)) (old_pages (Node "M" [res 0 []] [Node "index" [res 1 []] []]))
+  = [(["index.rst"], [0]); (["index.rst"], [1])].
+Proof. vm_compute. reflexivity. Qed.
+
+Example duplicate_sibling_refuted :
+  map (fun p => (add_rst (p_doc p), p_anchors p, p_toc p))
+      (old_pages (Node "M" [] [Node "A" [res 1 []] []; Node "A" [res 2 []] []]))
+  = [(["index.rst"], [], [["A"]; ["A"]]); (["A.rst"], [1; 2], []); (["A.rst"], [1; 2], [])].
+Proof. vm_compute. reflexivity. Qed.
